@@ -311,6 +311,9 @@ def rule_C01(c):
     # R9: rejected inputs are reported with the INVALID code (never with a code the Go layer turns into an error)
     c.floor("C01.R9", 3)
     rule_verdict_codes(c, "C01.R9")
+    # R14: limb-granular helpers are given whole limbs (the readers' "remaining bytes are zero" test included)
+    c.floor("C01.R14", 20)
+    rule_limb_granular(c, "C01.R14")
     c.floor("C01.R6", 10)
     rule_reader_coverage(c, "C01.R6", (("E1_read_bytes", 48),))
     rule_reader_header(c, "C01.R6", (("E1_read_bytes", 48, "Fp_read_bytes", "Fp_sqrt_montg", 48),))
@@ -552,6 +555,9 @@ def rule_pairing_flush(c, rule):
 
 
 def rule_C17(c):
+    # R9: the proof reader accepts canonical strings only: limb-granular helpers get whole limbs
+    c.floor("C17.R9", 20)
+    rule_limb_granular(c, "C17.R9")
     # R4: keys and proofs are handed to the pairing as affine points only after a conversion (= C04.R5)
     c.floor("C17.R4", 2)
     rule_affine_casts(c, "C17.R4")
@@ -1090,6 +1096,9 @@ def rule_affine_casts(c, rule):
 
 
 def rule_C04(c):
+    # R10: the signature reader behind the aggregation accepts only whole, canonical strings: limb-granular helpers get whole limbs
+    c.floor("C04.R10", 20)
+    rule_limb_granular(c, "C04.R10")
     # R6: encodings of sums: the writers export coordinates only for points tested not to be infinity
     c.floor("C04.R6", 2)
     rule_writer_infinity(c, "C04.R6")
@@ -1519,6 +1528,47 @@ def program_sizeof_hook(prog):
     return hook
 
 
+LIMB_GRANULAR = {"vec_is_zero": 1, "vec_is_equal": 2, "vec_copy": 2, "vec_zero": 1, "vec_select": 3, "vec_czero": 1, "vec_cswap": 2}
+
+
+def rule_limb_granular(c, rule, only=None):
+    """BLST's vec_* helpers work on whole machine limbs (`num /= sizeof(limb_t)`): a byte count that is not a multiple
+    of the limb size silently leaves the trailing bytes out — not compared, not copied, not cleared. (The byte-wise
+    siblings are bytes_are_zero / bytes_zero, and plain loops.) Every call of such a helper in the glue has a byte count
+    that is a compile-time multiple of sizeof(limb_t); a count the analysis cannot evaluate is reported as not judged."""
+    limb = 8
+    n = 0
+    seen = {}
+    for fname, fd in sorted(c.p.funcs.items()):
+        if only is not None and fname not in only:
+            continue
+        for e in walk(fd):
+            if e.get("kind") != "CallExpr":
+                continue
+            cn = callee_name(e)
+            if cn not in LIMB_GRANULAR:
+                continue
+            args = [a for a in e["inner"][1:]]
+            ni = LIMB_GRANULAR[cn]
+            if ni >= len(args):
+                continue
+            n += 1
+            v = const_eval(args[ni], c.p.enums)
+            txt = R(c.p.enums)(args[ni])
+            key = "%s/%s/limb-count:%s" % (fname, cn, txt[:40])
+            seen[key] = seen.get(key, 0) + 1
+            if seen[key] > 1:
+                key += "#%d" % seen[key]
+            where = "%s:%s" % (c.p.where.get(fname, "?"), e.get("_line"))
+            if v is None:
+                c.info(rule, key, where, "byte count `%s` is not a compile-time constant: not judged" % txt)
+            else:
+                c.check(v % limb == 0, rule, key, where, "%d bytes = %d whole limbs" % (v, v // limb),
+                        "%s is applied to %d bytes in %s: it works on whole %d-byte limbs, so the last %d byte(s) are ignored — an input that differs from the expected one only there is treated as equal / zero" % (cn, v, fname, limb, v % limb))
+    if n == 0:
+        c.und(rule, "anchor:limb-granular-calls", "?", "no call of a limb-granular BLST helper found in the glue")
+
+
 def rule_object_extents(c, rule, only=None):
     """Every call of a sized primitive on an object of the glue (Fr, Fp, E1, … located by the pointee type of the
     operand, never by name) covers the object: a predicate (is-zero, is-equal) must inspect exactly sizeof(object)
@@ -1610,6 +1660,9 @@ def rule_object_extents(c, rule, only=None):
 
 
 def rule_C05(c):
+    # R10: limb-granular BLST helpers are given whole limbs (an infinity encoding with stray bits in its last bytes is refused)
+    c.floor("C05.R10", 20)
+    rule_limb_granular(c, "C05.R10")
     # R7: the serializers read coordinates of affine points only (conversion first): what is written is the encoding of the
     # point, not of its Jacobian representation (= C04.R5)
     c.floor("C05.R7", 2)
@@ -2916,6 +2969,11 @@ def rule_C16(c):
     rule_pairing_core(c, "C16.R9")
     c.floor("C16.R10", 2)
     rule_reject_provenance(c, "C16.R10", ("bls_verify", "bls_verify_E1"))
+    # R11: the PoP message is the key's encoding: the serializers write the coordinates of the *affine* point (conversion
+    # first), so Equal keys have one encoding whatever their internal representation (= C05.R7)
+    c.floor("C16.R11", 2)
+    rule_affine_casts(c, "C16.R11")
+    rule_writer_infinity(c, "C16.R11")
 
 
 RULES = {"C16": rule_C16, "C08": rule_C08, "C12": rule_C12, "C01": rule_C01, "C02": rule_C02, "C03": rule_C03, "C04": rule_C04, "C05": rule_C05, "C06": rule_C06,
